@@ -355,6 +355,7 @@ func vnEnumChild(c *vf.Ctx, maxLen, shard, shards int) {
 		}
 		out := x.run(h)
 		vnJudge(c, rep, h, out, true)
+		vnRedundantCheck(c, rep, x, h, out[len(out)-1])
 		done++
 	})
 	c.Count("vn_seq_histories", done)
@@ -550,6 +551,8 @@ func vnConcRound(c *vf.Ctx, rep *reporter, roundNo int, race bool) {
 						x.l.Deregister()
 						x.dRet = tick()
 						x.dCall = dc
+					} else {
+						x.l.Deregister() // redundant: must not affect any other listener
 					}
 				case 'Y':
 					runtime.Gosched()
